@@ -20,6 +20,7 @@ mod engines {
 }
 mod props {
 	pub mod c01;
+	pub mod cli_extra;
 	pub mod c02;
 	pub mod c04;
 	pub mod c06;
@@ -145,10 +146,21 @@ fn real_main() {
 				engines::msgpack::run_decode(&mut out, &mut rng.fork(), thorough);
 				props::c18::run(&mut out, &mut rng.fork(), thorough);
 			}
-			"C13" => props::c13::run(&mut out, &mut rng.fork(), thorough),
-			"C14" => props::c14::run(&mut out, &mut rng.fork(), thorough),
+			"C13" => {
+				props::c13::run(&mut out, &mut rng.fork(), thorough);
+				props::cli_extra::small_output_to_full_device(&mut out, "C13");
+			}
+			"C14" => {
+				props::c14::run(&mut out, &mut rng.fork(), thorough);
+				props::cli_extra::c14_stdin_at_offset(&mut out, &mut rng.fork(), thorough);
+			}
 			"C15" => props::c15::run(&mut out, &mut rng.fork(), thorough),
-			"C16" => props::c16::run(&mut out, &mut rng.fork(), thorough),
+			"C16" => {
+				props::c16::run(&mut out, &mut rng.fork(), thorough);
+				props::cli_extra::c16_buffer_boundary(&mut out, thorough);
+				props::cli_extra::small_output_to_full_device(&mut out, "C16");
+				props::cli_extra::c16_help_write_errors(&mut out);
+			}
 			_ => {
 				eprintln!("unknown property {prop}");
 				std::process::exit(3);
